@@ -24,7 +24,7 @@ def run(ctx):
         return
     if not lean_ok:
         ctx.escalated = True
-    tier = "thorough" if (ctx.tier == "thorough" or ctx.escalated) else "quick"
+    tier = "thorough" if (ctx.tier == "thorough" or ctx.deep) else "quick"
     saved = ctx.tier
     ctx.tier = tier
     try:
